@@ -904,8 +904,8 @@ class Configuration(object):
         #   behave --color auto features/some.feature   # NO_PROBLEM
         if "--color" in command_args:
             color_arg_pos = command_args.index("--color")
-            next_arg = command_args[color_arg_pos + 1]
-            if os.path.exists(next_arg):
+            next_args = command_args[color_arg_pos + 1:color_arg_pos + 2]
+            if next_args and os.path.exists(next_args[0]):
                 command_args.insert(color_arg_pos + 1, "--")
 
         if verbose is None:
